@@ -113,14 +113,14 @@ fn crc32c_bitwise(data: &[u8]) -> u32 {
     r ^ 0xFFFF_FFFF
 }
 
-struct Tally { n: u64, panics: u64, full_diff: u64, full_same: u64, full_err: u64, part_diff: u64, part_err: u64, first_bad: String }
+struct Tally { n: u64, panics: u64, full_diff: u64, full_same: u64, full_err: u64, part_diff: u64, part_err: u64, first_bad: String, ploc: String }
 impl Tally {
-    fn new() -> Self { Tally { n: 0, panics: 0, full_diff: 0, full_same: 0, full_err: 0, part_diff: 0, part_err: 0, first_bad: String::new() } }
+    fn new() -> Self { Tally { n: 0, panics: 0, full_diff: 0, full_same: 0, full_err: 0, part_diff: 0, part_err: 0, first_bad: String::new(), ploc: String::new() } }
     fn add(&mut self, what: &str, pristine: &[(&'static str, bool, Out)], now: &[(&'static str, bool, Out)]) {
         self.n += 1;
         for (p, q) in pristine.iter().zip(now) {
             match (&q.2, q.1) {
-                (Out::Panic, _) => { self.panics += 1; if self.first_bad.is_empty() { self.first_bad = format!("{}:{}:panic", what, q.0); } }
+                (Out::Panic, _) => { self.panics += 1; if self.first_bad.is_empty() { self.first_bad = format!("{}:{}:panic", what, q.0); self.ploc = last_panic_location(); } }
                 (Out::Err, true) => self.full_err += 1,
                 (Out::Err, false) => self.part_err += 1,
                 (Out::Val(v), true) => { if Out::Val(v.clone()) == p.2 { self.full_same += 1 } else { self.full_diff += 1; if self.first_bad.is_empty() { self.first_bad = format!("{}:{}:different-data", what, q.0); } } }
@@ -129,7 +129,8 @@ impl Tally {
         }
     }
     fn show(&self) -> String {
-        format!("sum n={} panics={} full_diff={} full_same={} full_err={} part_diff={} part_err={} first={}", self.n, self.panics, self.full_diff, self.full_same, self.full_err, self.part_diff, self.part_err, if self.first_bad.is_empty() { "-" } else { &self.first_bad })
+        format!("sum n={} panics={} full_diff={} full_same={} full_err={} part_diff={} part_err={} first={}{}", self.n, self.panics, self.full_diff, self.full_same, self.full_err, self.part_diff, self.part_err, if self.first_bad.is_empty() { "-" } else { &self.first_bad },
+            if self.ploc.is_empty() { String::new() } else { format!(" ploc={}", self.ploc.replace(' ', "_")) })
     }
 }
 
